@@ -25,7 +25,8 @@ RULE = ("part 'threads': structured multi-thread programs (2-4 threads; own task
         "await parks on a gate and a seeded driver picks the release order, >=20 orders per program. Probes in every thread/task at "
         "every step: a new thread starts with no current action, a new task with the action current at its creation, and a thread's/"
         "task's current action never changes because of another's steps. The merged tape must parse to the ground-truth forest, and "
-        "the canonical parsed forest (concurrent siblings sorted) must be identical across all schedules of one program. non-trivial = "
+        "the canonical parsed forest (concurrent siblings sorted) must be identical across all schedules of one program. Thread programs log by log_message, Action.log and through the standard "
+        "library bridge (eliot.stdlib.EliotHandler, created wherever the program first needs it). non-trivial = "
         "schedule with a preemption inside eliot code / release order with >=2 live contexts; distinct by interleaving hash")
 ASSUMPTIONS = ["programs join the work they spawn before the enclosing action ends", "switch points: statement boundaries (threads), awaits (tasks)"]
 EXHAUSTIVE_NOTE = "threads: all one-preemption schedules (root thread first and last in priority) of each generated program"
